@@ -3,7 +3,7 @@
 patch=$1; shift
 cd /repo || exit 9
 if ! git diff --quiet; then echo "/repo dirty, refusing"; exit 9; fi
-git apply --3way "$patch" 2>/tmp/trymut.err || { echo "PATCH DOES NOT APPLY"; cat /tmp/trymut.err; git checkout -- . ; git reset -q; exit 8; }
+git apply --3way "$patch" 2>/tmp/trymut.err || { echo "PATCH DOES NOT APPLY"; cat /tmp/trymut.err; git reset -q --hard HEAD; exit 8; }
 git reset -q
 git diff --stat | tail -1
 cd /verif
